@@ -96,7 +96,7 @@ def gen_case(rng):
         post += ["--quality-base", str(qbase)]
     feats = dict(qual_base=qbase, maxlen=50, polya="--poly-a" in post, nruns=True, lower=rng.random() < 0.3,
                  revcomp_some=revcomp, qual_profile=None if not zero_cap else rng.choice([None, "lowbase"]),
-                 alphabets=["ACGT", "ACGT", "ACGTN"])
+                 alphabets=["ACGT", "ACGT", "ACGTN", "ACGTIZEQ"])
     recs1, recs2 = G.gen_reads(rng, rng.randint(15, 50), paired, ads1, ads2 or ads1, **feats)
     return dict(paired=paired, fmt=fmt, ads1=ads1, ads2=ads2, action=action, times=times, pair_adapters=pair_adapters,
                 revcomp=revcomp, pre=pre, ad_opts=ad_opts, post=post, zero_cap=zero_cap, qbase=qbase, recs1=recs1, recs2=recs2 if paired else None)
